@@ -433,7 +433,7 @@ impl<'a, R: AsyncRead + Unpin, W: AsyncWrite + Unpin> Request<'a, R, W> {
         // Prepare request for shutdown
         match self.writeable().await {
             Ok(()) => {},
-            Err(e) if e.kind() == io::ErrorKind::ConnectionAborted => { /* Ignore */ },
+            Err(e) if parser::Error::is_abort_request(&e) => { /* Ignore */ },
             Err(e) => return Err(e),
         }
         self.parser.set_stream(None).expect("ignoring stream data should always be allowed");
@@ -662,7 +662,7 @@ impl Token {
                 let mut req = Request::new(sparser, input, output);
                 let status = match handler(&mut req).await {
                     Ok(s) => s,
-                    Err(e) if e.kind() == io::ErrorKind::ConnectionAborted => {
+                    Err(e) if parser::Error::is_abort_request(&e) => {
                         tracing::debug!("request aborted by remote");
                         ExitStatus::ABORT
                     },
